@@ -434,6 +434,11 @@ pub fn run_shard(prop: &str, seed: u64, shard: u64, w: &Work) -> Report {
                             "C03:non-utf8-path-dispatched"
                         };
                         rep.violate(tag(sig), witness(&real, order));
+                        if prop == "C01" {
+                            // whatever the handler was given, it is not the request's segments
+                            // (those name no valid path)
+                            rep.violate("C01:variables-differ-from-request-segments:invalid-path-dispatched", witness(&real, order));
+                        }
                     }
                     Real::Status(..) => {
                         let sig = if *why == "dot-segment" {
